@@ -291,6 +291,10 @@ func merge(g *Term, a, b Value) Value {
 	case *Term:
 		y, ok := b.(*Term)
 		if !ok {
+			if p, isP := b.(*PtrV); isP && x.IsConst() && x.val == 0 {
+				// unsafe.Pointer cell (atomic.Pointer) still holding its zero value
+				return &PtrV{T: mergeTargets(g, nil, p.T)}
+			}
 			panic(unsupported(fmt.Sprintf("merge: term with %T", b)))
 		}
 		return Ite(g, x, y)
